@@ -21,6 +21,11 @@ def _contract(c):
         lambda: sort_merge_counts(np.arange(n + 2, dtype=np.uint64), np.ones(1, np.float32), u([]), np.array([], dtype=np.float32)),
         lambda: as_dense(u([0, n]), np.array([1, 2], dtype=np.float32), n),
         lambda: as_dense(u([1 << 40]), np.array([1], dtype=np.float32), n),
+        # the offending index anywhere: first, in the middle (inside / after the unrolled part), with valid ones last
+        lambda: as_dense(u([n + 1, 1, 0]), np.array([1, 2, 3], dtype=np.float32), n + 1),
+        lambda: as_dense(u([0, n + 7, 1]), np.array([1, 2, 3], dtype=np.float32), n + 2),
+        lambda: as_dense(u(list(range(12)) + [n + 30] + [0]), np.ones(14, dtype=np.float32), 12),
+        lambda: as_dense(u([1 << 40, 0]), np.array([1, 2], dtype=np.float32), n),
         lambda: SearchArray.index([" ".join(f"t{i}" for i in range(64 + n)), "x"]).termfreqs([f"t{i}" for i in range(64 + n)], slop=1),
         lambda: span_search(u(list(range(n))), u([0]), {}, 1, 0xFFFFFFF000000000, 0xFFFFFFFFFFFC0000, 28, 18),
         lambda: intersect(np.arange(2 * n + 2, 0, -1, dtype=np.uint64)[::-1], np.arange(1, n + 2, dtype=np.uint64)),
